@@ -46,6 +46,14 @@ extra = [
  'a:[1 TO 5]^2', 'a:[1 TO 5]~', '(a:[1 TO 5])', 'NOT a:[1 TO 5]', '+a:[1 TO 5]', 'a:(b)', 'a:(b OR (c OR d))', 'a:((b OR c) OR d)', 'a:(b OR c)~', 'a:(b OR c)^2',
  'a:b AND (', 'a:b OR )', ')(', '[', ']', '{', '}', 'a:[', 'a:]', '[1 TO 5]', '{1 TO 5}', 'a:[(1) TO 5]', 'a:[1 TO (5)]', 'a:[1 OR 2 TO 5]', 'a:[a:b TO 5]',
  'a:b=c', 'a=b=c', 'a=[1 TO 5]', 'a=>5', 'a=(b OR c)', 'a = "b c"', 'a=b*', 'a=/x/', 'a:=b', 'a:>=b', 'a:<"b c"', 'a:>[1 TO 2]', 'a:>(b)', 'a:>b*',
+ # normalisation bait: duplicates, unsorted lists, inverted ranges, case variants, redundant structure
+ 'a:(x OR x OR y OR z)', 'a:(x OR y OR x)', 'a:(z OR y OR x)', 'a:(3 OR 1 OR 2 OR 1)', 'a:(b OR a)', 'a:(x OR X)', 'a:(x OR "x")', 'a:(1 OR 1.0 OR "1")',
+ 'a:(v1 OR v2 OR v3 OR v4 OR v5 OR v6 OR v7 OR v8 OR v9 OR v10 OR v1)', 'a:(x OR x)', 'a:(x OR x OR x OR x)',
+ 'a:b AND a:b', 'a:b OR a:b', 'a:b AND a:b AND a:b', 'a:b a:b', '+a:b +a:b', 'a:b AND b:a', 'b:a AND a:b', 'a:B OR a:b', 'A:b OR a:b',
+ 'a:[5 TO 1]', 'a:[b TO a]', 'a:{9 TO 9}', 'a:[1 TO 1]', 'a:[* TO *] AND a:[* TO *]', 'a:b* OR a:b*', 'a:/x/ OR a:/x/', 'a:"" OR a:""',
+ 'a:"x" OR a:\'x\'', 'a:x~ OR a:x~', 'a:x^2 OR a:x^2', '(a:b) AND ((a:b))', 'NOT a:b AND NOT a:b', 'a:b AND (c:d AND (e:f AND (g:h AND i:j)))',
+ '((((a:b AND c:d) AND e:f) AND g:h) AND i:j)', 'a:1 OR a:2 OR a:3 OR a:4 OR a:5 OR a:6 OR a:7 OR a:8', 'z:1 y:2 x:3 w:4 v:5 u:6',
+ 'a:(x OR y) AND b:(x OR y)', 'a:(x OR y) OR a:(y OR x)', 'a:>1 AND a:>1', 'a:<=5 a:<=5', 'a:[1 TO 5] OR a:[1 TO 5]',
  'x AND y AND z', 'x OR y OR z', 'x y z', 'x AND y z', 'x y AND z', 'x OR y z', 'x y OR z', 'x NOT y', 'x AND NOT y', 'x OR NOT y', 'NOT x y', 'NOT x AND y', 'NOT x OR y', '+x -y z', '+x AND -y', 'x~ y^', 'x^2 y~3', '"x y"~2 z', 'x:1 y:2 z:3', 'x:1 OR y:2 z:3 AND w:4',
 ]
 seen = set(); res = []
